@@ -2,7 +2,7 @@ SPECIFICATION Spec
 CONSTANTS
   IterUniverse <- U_tiny
   ExportUniverse <- U_quick
-  MaxSize = 40
+  MaxSize = 30
   NumValid = 3
   NumBase = 1
-  NumCorr = 16
+  NumCorr = 12
